@@ -243,8 +243,13 @@ impl<'a, Input: InputIndexer> MatchAttempter<'a, Input> {
     ) -> Option<(Input::Position, Input::Position)> {
         match re.insns.iat(ip + 1) {
             &Insn::Char(c) => {
-                let c = <<Input as InputIndexer>::Element as ElementType>::try_from(c)?;
-                Self::run_scm_loop_impl(input, pos, min, max, dir, scm::Char { c })
+                match <<Input as InputIndexer>::Element as ElementType>::try_from(c) {
+                    Some(c) => Self::run_scm_loop_impl(input, pos, min, max, dir, scm::Char { c }),
+                    // This char cannot occur in the input (e.g. a surrogate, or non-ASCII in
+                    // ASCII mode), so the loop can only iterate zero times.
+                    None if min == 0 => Some((pos, pos)),
+                    None => None,
+                }
             }
             &Insn::Bracket(idx) => {
                 let bc = &re.brackets[idx];
@@ -316,8 +321,11 @@ impl<'a, Input: InputIndexer> MatchAttempter<'a, Input> {
     ) -> Option<Input::Position> {
         let result = match re.insns.iat(ip + 1) {
             &Insn::Char(c) => {
-                let c = <<Input as InputIndexer>::Element as ElementType>::try_from(c)?;
-                Self::compute_max_pos(input, pos, limit, dir, scm::Char { c })
+                match <<Input as InputIndexer>::Element as ElementType>::try_from(c) {
+                    Some(c) => Self::compute_max_pos(input, pos, limit, dir, scm::Char { c }),
+                    // This char cannot occur in the input: no further iterations.
+                    None => pos,
+                }
             }
             &Insn::Bracket(idx) => {
                 let bc = &re.brackets[idx];
